@@ -187,7 +187,7 @@ public:
         if (p == "C09") { o.inexact = true; o.allow_int = false; }
         if (thorough && p == "C03" && rng.chance(250)) { o.max_n = 30; o.max_m = 80; } else { o.max_n = 9; o.max_m = 36; }
         if (p == "C20") { o.max_n = 7; o.max_m = 14; o.allow_int = false; }
-        if (p == "C03") { o.core_sat_pm = 60; o.big_core_pm = 80; }
+        if (p == "C03") { o.core_sat_pm = 60; o.big_core_pm = 80; o.wide_pm = 50; }
         if (p == "C20") {} else if (p == "C03") { o.boundary_pm = prop == "C07" ? 30 : 6; o.boundary_max_n = 129; }
         bool approx = p == "C03" && rng.chance(330);
         if (approx && rng.chance(400)) { o.max_n = std::max(o.max_n, (int) rng.range(10, 16)); o.max_m = std::max(o.max_m, 36); o.heavy_tail_pm = 1000; }
@@ -218,6 +218,7 @@ public:
             int k = 1;
             if (approx) { cs["entry"] = APPROX[rng.below(3)]; k = (int) rng.pick(std::vector<int> { 1, 1, 2, 2, 3, 4 }); if (g.family == "hubs") k = (int) rng.pick(std::vector<int> { 2, 2, 2, 3 }); }
             else cs["entry"] = EXACT[rng.below(3)];
+            if (g.family == "wide" && rng.chance(700)) cs["entry"] = approx ? "approx_signed_tbb" : "signed_tbb";
             if (g.family == "core_satellites" && g.n >= 9) cs["entry"] = approx ? "approx_signed_tbb" : "signed_tbb";   // big dense cores: the vertex reduce of the signed search
             cfg["k"] = k; cmin["k"] = 1;
         }
